@@ -96,7 +96,20 @@ class SymMasked(SymArr):
         return _minmax("ma.max", self, False, axis, skipnan=True)
 
 
-class _MA:
+class _MA(Proxy):
+    def masked_values(self, x, value, rtol=1e-5, atol=1e-8, copy=True, shrink=True):
+        """numpy.ma.masked_values: masked where |x - value| <= atol + rtol*|value| (numpy.isclose)."""
+        _use("numpy.ma.masked_values")
+        from .arr import as_array
+        from .core import _numeric
+
+        x = as_array(x)
+        tol = atol + rtol * abs(value)
+        snap = x.snapshot()
+        out = new_array(x.shape, lambda idx: snap(*idx), x.kind)
+        out.storage.nan = lambda idx: abs(_numeric(snap(*idx)) - value) <= tol
+        return SymMasked(out.storage)
+
     def masked_where(self, cond, a, copy=True):
         _use("numpy.ma.masked_where")
         snap = a.snapshot()
